@@ -5,6 +5,7 @@ package main
 
 import (
 	"fmt"
+	"go/constant"
 	"go/token"
 	"os"
 	"sort"
@@ -32,6 +33,23 @@ func (c *CallSite) Desc() string {
 }
 
 func (P *Prog) CallSitesIn(fn *ssa.Function) []*CallSite {
+	out := P.callSitesInOwn(fn)
+	// a block of fn that was given a name (see extractedInto) still belongs to fn: its call sites are listed with fn's, the
+	// values in them are rendered in fn's terms (termer: parameters of an extracted helper are the caller's arguments), and
+	// path facts for them are the facts at the helper's call site (PathStates.At)
+	if fn.Parent() == nil {
+		seen := map[*ssa.Function]bool{fn: true}
+		for k := 0; k < len(out) && len(seen) < 6; k++ {
+			if h := out[k].Instr.Common().StaticCallee(); h != nil && !seen[h] && extractedInto(h) == out[k].Fn {
+				seen[h] = true
+				out = append(out, P.callSitesInOwn(h)...)
+			}
+		}
+	}
+	return out
+}
+
+func (P *Prog) callSitesInOwn(fn *ssa.Function) []*CallSite {
 	var out []*CallSite
 	for _, b := range fn.Blocks {
 		for _, in := range b.Instrs {
@@ -85,7 +103,80 @@ func TopFunc(fn *ssa.Function) *ssa.Function {
 	for fn.Parent() != nil {
 		fn = fn.Parent()
 	}
+	// A function that did not exist on the reviewed tree, is unexported and is called from one function only is a
+	// block of that function which somebody gave a name: constructs inside it are attributed to its caller, so that
+	// tables keyed by the reviewed functions keep deciding the same code after an "extract helper" refactoring.
+	for depth := 0; depth < 3; depth++ {
+		o := extractedInto(fn)
+		if o == nil {
+			break
+		}
+		fn = o
+	}
 	return fn
+}
+
+// TopFunc2 is TopFunc without the climb through extracted helpers: the named function an instruction is written in.
+func TopFunc2(fn *ssa.Function) *ssa.Function {
+	for fn != nil && fn.Parent() != nil {
+		fn = fn.Parent()
+	}
+	return fn
+}
+
+// extractedInto returns the single caller of a new unexported helper, nil when fn is a reviewed function or has no
+// unique caller.
+func extractedInto(fn *ssa.Function) *ssa.Function {
+	if curProg == nil || len(reviewedFuncs) == 0 || fn == nil || fn.Parent() != nil || reviewedFuncs[FuncName(fn)] || !curProg.isRepoFunc(fn) {
+		return nil
+	}
+	if n := fn.Name(); n == "" || (n[0] >= 'A' && n[0] <= 'Z') || n == "init" {
+		return nil
+	}
+	var owner *ssa.Function
+	for _, c := range curProg.callers[fn] {
+		for c.Parent() != nil {
+			c = c.Parent()
+		}
+		if c == fn {
+			continue
+		}
+		if owner != nil && owner != c {
+			return nil
+		}
+		owner = c
+	}
+	return owner
+}
+
+// Multiplicity is the number of times a construct inside fn counts for its TopFunc: 1, or for an extracted helper the number
+// of its call sites in the caller (a block used three times and extracted is still used three times).
+func Multiplicity(fn *ssa.Function) int {
+	for fn.Parent() != nil {
+		fn = fn.Parent()
+	}
+	m := 1
+	for depth := 0; depth < 3; depth++ {
+		o := extractedInto(fn)
+		if o == nil {
+			break
+		}
+		n := 0
+		for _, f := range append([]*ssa.Function{o}, o.AnonFuncs...) {
+			for _, b := range f.Blocks {
+				for _, in := range b.Instrs {
+					if c, ok := in.(ssa.CallInstruction); ok && c.Common().StaticCallee() == fn {
+						n++
+					}
+				}
+			}
+		}
+		if n > 1 {
+			m *= n
+		}
+		fn = o
+	}
+	return m
 }
 
 // ConstArg returns the constant string/int rendering of argument i (after the receiver), "" if not constant.
@@ -144,6 +235,9 @@ type Atom struct {
 	// of one call), so a path that already knows the atom cannot take the edge that contradicts it
 	// (prunes the infeasible paths of `if err != nil && ..` followed by `if err == nil && ..`).
 	Stable bool
+	// Exact: the Cond interprets (and may record) the relation in the form it is written; the engine then does not
+	// offer it the negated rendering of an inverted guard (a <= b as !(b < a)).
+	Exact bool
 }
 
 type State string // one byte per atom
@@ -437,6 +531,7 @@ func analyzePaths(fn *ssa.Function, atoms []Atom, helpers bool) *PathStates {
 		pol  bool
 		// one-sided entries come from a guard helper: only the success edge (succIdx) sets the atom to val
 		oneSided bool
+		pre      [][2]int // prerequisites (atom, value): the one-sided fact applies only to states that satisfy them
 		succIdx  int
 		val      int8
 	}
@@ -454,6 +549,125 @@ func analyzePaths(fn *ssa.Function, atoms []Atom, helpers bool) *PathStates {
 				if m, atw := a.Cond(rel); m {
 					branch[b] = append(branch[b], bm{atom: i, pol: pol == atw})
 					ps.Matched[a.Name] = append(ps.Matched[a.Name], rel.String())
+				} else if alt := flippedRel(rel); alt != nil && !a.Exact {
+					// a <= b is the negation of b < a (and the reverse): an inverted guard states the same fact
+					if m, atw := a.Cond(alt); m {
+						branch[b] = append(branch[b], bm{atom: i, pol: (!pol) == atw})
+						ps.Matched[a.Name] = append(ps.Matched[a.Name], "!"+alt.String())
+					}
+				}
+			}
+			// `switch { case a && b: }` and `v := a && b; if v`: the condition is evaluated as a value, the If tests a phi whose
+			// edges are the constant false of each short-circuit exit and the value of the last operand. The phi is true only if
+			// every operand was true (for ||: false only if every operand was false): one-sided facts on that successor.
+			if phi, isPhi := iff.Cond.(*ssa.Phi); isPhi && len(phi.Edges) == len(phi.Block().Preds) {
+				allFalse, allTrue, nconst := true, true, 0
+				for _, e := range phi.Edges {
+					if c, ok := e.(*ssa.Const); ok && c.Value != nil && c.Value.Kind() == constant.Bool {
+						nconst++
+						if constant.BoolVal(c.Value) {
+							allFalse = false
+						} else {
+							allTrue = false
+						}
+					}
+				}
+				if nconst > 0 && nconst < len(phi.Edges) && (allFalse || allTrue) {
+					succIdx, want := 0, true // && form: facts on the true successor, every operand true
+					if allTrue && !allFalse {
+						succIdx, want = 1, false // || form: facts on the false successor, every operand false
+					}
+					addFact := func(cond ssa.Value, holds bool) {
+						orel, opol := Cond(ps.tm.Of(cond))
+						for i, a := range atoms {
+							if a.Cond == nil {
+								continue
+							}
+							try := func(r *Term, p bool) bool {
+								if m, atw := a.Cond(r); m {
+									v := F
+									if (p == atw) == holds {
+										v = T
+									}
+									branch[b] = append(branch[b], bm{atom: i, oneSided: true, succIdx: succIdx, val: v})
+									ps.Matched[a.Name] = append(ps.Matched[a.Name], "operand of a short-circuit value: "+r.String())
+									return true
+								}
+								return false
+							}
+							if !try(orel, opol) && !a.Exact {
+								if alt := flippedRel(orel); alt != nil {
+									try(alt, !opol)
+								}
+							}
+						}
+					}
+					var lastOperand ssa.Value
+					var earlier []ssa.Value
+					for k, e := range phi.Edges {
+						if _, isConst := e.(*ssa.Const); !isConst {
+							addFact(e, want)
+							lastOperand = e
+							continue
+						}
+						// the short-circuit exit: the pred's own If decided this operand the other way
+						pred := phi.Block().Preds[k]
+						if len(pred.Instrs) > 0 {
+							if pif, ok := pred.Instrs[len(pred.Instrs)-1].(*ssa.If); ok {
+								addFact(pif.Cond, want)
+								earlier = append(earlier, pif.Cond)
+								continue
+							}
+						}
+						earlier = append(earlier, nil)
+					}
+					// the converse on the other successor: a state in which every earlier operand is known to have held (it came
+					// through the last operand's block) and the phi is false (for ||: true) has the last operand false (true)
+					if lastOperand != nil && nconst == len(phi.Edges)-1 {
+						atomOf := func(cond ssa.Value, holds bool) [][2]int {
+							var out [][2]int
+							if cond == nil {
+								return nil
+							}
+							orel, opol := Cond(ps.tm.Of(cond))
+							for i, a := range atoms {
+								if a.Cond == nil || !a.Stable {
+									continue
+								}
+								for _, c := range []struct {
+									r *Term
+									p bool
+								}{{orel, opol}, {flippedRel(orel), !opol}} {
+									if c.r == nil || (c.r != orel && a.Exact) {
+										continue
+									}
+									if m, atw := a.Cond(c.r); m {
+										v := int(F)
+										if (c.p == atw) == holds {
+											v = int(T)
+										}
+										out = append(out, [2]int{i, v})
+										break
+									}
+								}
+							}
+							return out
+						}
+						var pre [][2]int
+						okPre := true
+						for _, c := range earlier {
+							p := atomOf(c, want)
+							if len(p) == 0 {
+								okPre = false
+							}
+							pre = append(pre, p...)
+						}
+						if okPre {
+							for _, f := range atomOf(lastOperand, !want) {
+								branch[b] = append(branch[b], bm{atom: f[0], oneSided: true, succIdx: 1 - succIdx, val: int8(f[1]), pre: pre})
+							}
+						}
+					}
 				}
 			}
 			// `if helper(args)` with a predicate helper: the facts it guarantees per result, in the caller's terms
@@ -541,6 +755,18 @@ func analyzePaths(fn *ssa.Function, atoms []Atom, helpers bool) *PathStates {
 				for _, m := range branch[b] {
 					if m.oneSided {
 						if si == m.succIdx {
+							holds := true
+							for _, p := range m.pre {
+								if int(int8(s[p[0]])) != p[1] {
+									holds = false
+								}
+							}
+							if !holds {
+								continue
+							}
+							if atoms[m.atom].Stable && int8(s[m.atom]) != U && int8(s[m.atom]) != m.val {
+								infeasible = true
+							}
 							ns = ns.set(m.atom, m.val)
 						}
 						continue
@@ -595,6 +821,31 @@ func (ps *PathStates) through(b *ssa.BasicBlock, s State, upto int) State {
 
 // At returns the valuations possible immediately before instruction in.
 func (ps *PathStates) At(in ssa.Instruction) []State {
+	if h := TopFunc2(in.Parent()); h != TopFunc2(ps.Fn) && ps.Fn.Parent() == nil {
+		// an instruction inside a helper extracted from ps.Fn: the facts that hold at the helper's call sites
+		set := map[State]bool{}
+		for depth := 0; depth < 3 && h != nil && h != ps.Fn; depth++ {
+			o := extractedInto(h)
+			if o == ps.Fn {
+				for _, b := range ps.Fn.Blocks {
+					for _, x := range b.Instrs {
+						if c, ok := x.(ssa.CallInstruction); ok && c.Common().StaticCallee() == h {
+							for _, st := range ps.At(x) {
+								set[st] = true
+							}
+						}
+					}
+				}
+			}
+			h = o
+		}
+		var out []State
+		for st := range set {
+			out = append(out, st)
+		}
+		sort.Slice(out, func(i, j int) bool { return out[i] < out[j] })
+		return out
+	}
 	b := in.Block()
 	idx := -1
 	for k, x := range b.Instrs {
@@ -1170,4 +1421,18 @@ func (P *Prog) HookErrorsPropagate(want func(callee *ssa.Function) bool) (oks, b
 		}
 	}
 	return
+}
+
+// flippedRel returns the relation whose negation rel is: a <= b for b < a, a < b for b <= a; nil for other relations.
+func flippedRel(rel *Term) *Term {
+	if rel == nil || len(rel.Args) != 2 {
+		return nil
+	}
+	switch rel.Op {
+	case "<=":
+		return &Term{Op: "<", Args: []*Term{rel.Args[1], rel.Args[0]}}
+	case "<":
+		return &Term{Op: "<=", Args: []*Term{rel.Args[1], rel.Args[0]}}
+	}
+	return nil
 }
